@@ -22,6 +22,21 @@ claimed = {
  "C05": ("proptest over type x 0-4-D shape x layout x ownership x NaN/tie placements; oracle = independent scan of the logical data",
          "Every generated array (incl. empty, zero-length axes, 0-D, NaN at first/middle/last) is scanned independently; index and value forms must designate a true extremum, agree with each other, and report EmptyInput / UndefinedOrder exactly when documented.",
          "Which of several equal extrema is returned is not constrained (documented as unspecified).", "5/C05"),
+ "C06": ("proptest with an exact big-integer oracle and an explicit forward-error budget; integers exact",
+         "Inputs are dyadic rationals, so every sum and product is known exactly; results must lie within (2n+8)u times the exact sum of absolute terms (cross-multiplied, no reference rounding), integers must be exact including truncating division, per-axis forms are judged lane by lane, data and weights use independent memory layouts.",
+         "Budget formula from DESIGN.md appendix C; geometric mean reference is libm-based (its 1-ulp error is charged).", "5/C06"),
+ "C07": ("proptest with exact rational variance/moments and range-based / moment budgets",
+         "Exact rational variance and central moments (big integers) against weighted_var/std(+axis), central_moment(s), skewness, kurtosis; orders 0/1 bit-exact; zero weights at first/middle/last positions are an explicit generator class.",
+         "Variance budget is range-based because the documented update is one-pass; non-resolving cases (budget > 2^-10 of the value) are only sanity-checked and not counted as non-trivial.", "5/C07"),
+ "C08": ("proptest with exact covariance sums, budgeted comparison, metamorphic affine/negation relations",
+         "Every entry of cov and pearson_correlation against exact sums of products; symmetry, diagonal, range, affine invariance and sign flip.",
+         "Correlation budget is first-order propagation of the covariance and range-based variance budgets.", "5/C08"),
+ "C09": ("proptest differential against an exact element-wise loop over logical indexes, all layout x ownership pairings",
+         "Integer (i32, i64, BigInt) results must equal the exact i128 computation; float results within (2n+8)u; derived measures recomputed with the documented formula; symmetry and identity.",
+         "Integer magnitudes are bounded from n so the element type cannot overflow (as the property states).", "5/C09"),
+ "C10": ("proptest against a compensated f64 reference with term-wise zero/NaN/inf rules and identities",
+         "Value, zero-term, infinity and NaN behaviour of the three routines plus the four identities of the property, with independent layouts for p and q.",
+         "Reference uses libm ln on f64 (error charged); normalisation defect is charged to the bounds that assume sum p = 1.", "5/C10"),
  "C11": ("proptest operation sequences against a dictionary model, invariant after every step; matrix forms and permuted order as metamorphic relations",
          "Histories of inserts (inside, on every edge, outside) on grids of 1-3 arbitrary axes are replayed against a model with linear-scan bin lookup; counts, shape and the accept/reject decision are compared after every single step, then against row-major, column-major and permuted matrix input.",
          "No stateful proptest library is installed; histories are vec(op) + interpreter, shrunk as one value.", "5/C11"),
